@@ -789,7 +789,8 @@ func (eval Evaluator) tensorStandard(op0 *rlwe.Ciphertext, op1 *rlwe.Element[rin
 //
 // If op1 is an [rlwe.ElementInterface][[ring.Poly]]:
 //   - the level of opOut will be updated to min(op0.Level(), op1.Level())
-//   - the scale of opOut will be to op0.Scale * op1.Scale * (-Q mod T)^{-1} mod T
+//   - the scale of opOut will be op0.Scale * op1.Scale * (-Q mod PlaintextModulus)^{-1} mod PlaintextModulus if op1 is a ciphertext,
+//     and op0.Scale * op1.Scale mod PlaintextModulus if op1 is a plaintext (degree 0: the standard tensoring is used)
 func (eval Evaluator) MulScaleInvariant(op0 *rlwe.Ciphertext, op1 rlwe.Operand, opOut *rlwe.Ciphertext) (err error) {
 	switch op1 := op1.(type) {
 	case rlwe.ElementInterface[ring.Poly]:
@@ -867,7 +868,8 @@ func (eval Evaluator) MulScaleInvariant(op0 *rlwe.Ciphertext, op1 rlwe.Operand, 
 //
 // If op1 is an [rlwe.ElementInterface][[ring.Poly]]:
 //   - the level of opOut will be to min(op0.Level(), op1.Level())
-//   - the scale of opOut will be to op0.Scale * op1.Scale * (-Q mod PlaintextModulus)^{-1} mod PlaintextModulus
+//   - the scale of opOut will be op0.Scale * op1.Scale * (-Q mod PlaintextModulus)^{-1} mod PlaintextModulus if op1 is a ciphertext,
+//     and op0.Scale * op1.Scale mod PlaintextModulus if op1 is a plaintext (degree 0: the standard tensoring is used)
 func (eval Evaluator) MulScaleInvariantNew(op0 *rlwe.Ciphertext, op1 rlwe.Operand) (opOut *rlwe.Ciphertext, err error) {
 	switch op1 := op1.(type) {
 	case rlwe.ElementInterface[ring.Poly]:
@@ -895,7 +897,8 @@ func (eval Evaluator) MulScaleInvariantNew(op0 *rlwe.Ciphertext, op1 rlwe.Operan
 //
 // If op1 is an [rlwe.ElementInterface][[ring.Poly]]:
 //   - the level of opOut will be updated to min(op0.Level(), op1.Level())
-//   - the scale of opOut will be to op0.Scale * op1.Scale * (-Q mod PlaintextModulus)^{-1} mod PlaintextModulus
+//   - the scale of opOut will be op0.Scale * op1.Scale * (-Q mod PlaintextModulus)^{-1} mod PlaintextModulus if op1 is a ciphertext,
+//     and op0.Scale * op1.Scale mod PlaintextModulus if op1 is a plaintext (degree 0: the standard tensoring is used)
 func (eval Evaluator) MulRelinScaleInvariant(op0 *rlwe.Ciphertext, op1 rlwe.Operand, opOut *rlwe.Ciphertext) (err error) {
 	switch op1 := op1.(type) {
 	case rlwe.ElementInterface[ring.Poly]:
@@ -978,7 +981,8 @@ func (eval Evaluator) MulRelinScaleInvariant(op0 *rlwe.Ciphertext, op1 rlwe.Oper
 //
 // If op1 is an [rlwe.ElementInterface][[ring.Poly]]:
 //   - the level of opOut will be to min(op0.Level(), op1.Level())
-//   - the scale of opOut will be to op0.Scale * op1.Scale * (-Q mod PlaintextModulus)^{-1} mod PlaintextModulus
+//   - the scale of opOut will be op0.Scale * op1.Scale * (-Q mod PlaintextModulus)^{-1} mod PlaintextModulus if op1 is a ciphertext,
+//     and op0.Scale * op1.Scale mod PlaintextModulus if op1 is a plaintext (degree 0: the standard tensoring is used)
 func (eval Evaluator) MulRelinScaleInvariantNew(op0 *rlwe.Ciphertext, op1 rlwe.Operand) (opOut *rlwe.Ciphertext, err error) {
 	switch op1 := op1.(type) {
 	case rlwe.ElementInterface[ring.Poly]:
